@@ -144,6 +144,19 @@ def group_model(which, fam):
             {"alpha": -1.0, "beta": 0.0, "Mach_number": 0.5, "wing.twist_cp": np.array([0.0, -1.0, 2.0])},
         ]
         mdl = history.Model("AeroPoint_compressible_sideslip", build, pts, ["ap.CL", "ap.CD", "ap.CM"], ["alpha", "beta", "Mach_number", "wing.twist_cp"], tol=1e-10)
+    elif which == "aero_comprot":
+        # the compressible option together with rotation rates (the rotational onset flow goes through the Prandtl-Glauert chain)
+        def build(mode):
+            m = gen.make_mesh("twdi", 2, 5, "full", fam, asym=True)
+            w = builders.aero_surface("wing", m, False, with_viscous=True, twist_cp=np.array([1.0, 2.0, 0.5]), CD0=0.01)
+            return builders.build_aero([w], dict(v=200.0, alpha=3.0, beta=2.0, rho=0.5, re=2e6, Mach_number=0.6, cg=[0.5, 0.1, 0.1], omega=[0.3, -0.1, 0.2]), with_geom=True, mode=mode, rotational=True, compressible=True)
+
+        pts = [
+            {"alpha": 3.0, "beta": 2.0, "Mach_number": 0.6, "omega": np.array([0.3, -0.1, 0.2])},
+            {"alpha": 3.0, "beta": 2.0, "Mach_number": 0.6, "omega": np.zeros(3)},
+            {"alpha": -2.0, "beta": 0.0, "Mach_number": 0.3, "omega": np.array([0.0, 0.2, 0.0])},
+        ]
+        mdl = history.Model("AeroPoint_compressible_rotational", build, pts, ["ap.CL", "ap.CD", "ap.CM"], ["alpha", "beta", "Mach_number", "omega", "cg"], tol=1e-10)
     elif which in ("struct_tube", "struct_wingbox"):
         model = which.split("_")[1]
 
@@ -260,7 +273,7 @@ def levels(tier, seed):
         for mode in ("fwd", "rev") if (idx < DEEP or tier == "thorough") else (("fwd", "rev")[idx % 2],):
             first.append(dict(level="comp", idx=idx, comp=COMP_MODELS[idx][0], mode=mode, fam=fam, hist=[["goto", 0]], maxd=depth if idx < DEEP else shallow))
     # group level: complete enumeration within the deviation bound (no pruning needed)
-    kd = {"aero": 2 if tier == "quick" else 3, "aero_rot": 1 if tier == "quick" else 2, "aero_beta": 1 if tier == "quick" else 2, "struct_tube": 1 if tier == "quick" else 2, "struct_wingbox": 1 if tier == "quick" else 2, "as_tube": 1 if tier == "quick" else 2, "as_wingbox": 1 if tier == "quick" else 2, "as_pm": 1 if tier == "quick" else 2}
+    kd = {"aero": 2 if tier == "quick" else 3, "aero_rot": 1 if tier == "quick" else 2, "aero_beta": 1 if tier == "quick" else 2, "aero_comprot": 1 if tier == "quick" else 2, "struct_tube": 1 if tier == "quick" else 2, "struct_wingbox": 1 if tier == "quick" else 2, "as_tube": 1 if tier == "quick" else 2, "as_wingbox": 1 if tier == "quick" else 2, "as_pm": 1 if tier == "quick" else 2}
     gops = list(DEV_OPS) + ([["chk"]] if tier == "thorough" else [])
     group_states = []
     for which, k in kd.items():
